@@ -72,6 +72,27 @@ func c05FilesRaw(ds []jr.Dir, l c05Layout) (map[string]string, string) {
 		parts[l.Assign[pos]].WriteString(ds[i].Render())
 	}
 	switch l.Shape {
+	case 3:
+		// wide: the root includes 40 files, each of which includes one more file; the
+		// three parts sit in the root, in the body of one mid-level file and in the last leaf
+		const w = 40
+		fs := map[string]string{}
+		var rb strings.Builder
+		for i := 0; i < w; i++ {
+			fmt.Fprintf(&rb, "include \"m%02d.knut\"\n", i)
+			mid := fmt.Sprintf("# mid %d\ninclude \"l%02d.knut\"\n", i, i)
+			if i == 17 {
+				mid += parts[1].String()
+			}
+			fs[fmt.Sprintf("m%02d.knut", i)] = mid
+			leaf := fmt.Sprintf("# leaf %d\n", i)
+			if i == w-1 {
+				leaf += parts[2].String()
+			}
+			fs[fmt.Sprintf("l%02d.knut", i)] = leaf
+		}
+		fs["root.knut"] = rb.String() + parts[0].String()
+		return fs, "root.knut"
 	case 0:
 		return map[string]string{
 			"root.knut": "include \"a.knut\"\ninclude \"b.knut\"\n" + parts[0].String(),
@@ -189,7 +210,7 @@ func c05Diff(base, o c05Obs) (string, string) {
 type c05Case struct {
 	Dirs   []jr.Dir
 	Layout c05Layout
-	Picks  []int `json:",omitempty"`
+	Picks  []int  `json:",omitempty"`
 	Base   string `json:",omitempty"`
 }
 
@@ -239,6 +260,12 @@ func c05Layouts(k int) []c05Layout {
 		}
 		ls = append(ls, c05Layout{Order: rev, Assign: a, Shape: 0})
 	}
+	// one wide two-level tree (81 files) per journal
+	wide := make([]int, k)
+	for i := range wide {
+		wide[i] = (i + 1) % 3
+	}
+	ls = append(ls, c05Layout{Order: id, Assign: wide, Shape: 3})
 	return ls
 }
 
@@ -344,7 +371,7 @@ func c05Family(e *core.Env, drv *core.Driver, pool []jr.Dir, maxK int, tag strin
 					continue
 				}
 				// schedule dimension on an evenly spaced core set of multi-file layouts
-				if l.Assign != nil && (journalNo*131+li)%schedEvery == 0 {
+				if l.Assign != nil && l.Shape != 3 && (journalNo*131+li)%schedEvery == 0 {
 					var vkey, vdetail string
 					var picks []int
 					for _, args := range [][]string{{"print", root}, append(append([]string{"balance", "--color=false", "--digits", "4"}, c05Flags[3]...), root)} {
@@ -363,9 +390,9 @@ func c05Family(e *core.Env, drv *core.Driver, pool []jr.Dir, maxK int, tag strin
 							} else if out.Exit != first.Exit {
 								k2, d2 = "verdict:schedule", fmt.Sprintf("exit %d vs %d", out.Exit, first.Exit)
 							} else if args[0] == "print" && normalizePrint(out.Stdout) != normalizePrint(first.Stdout) {
-								k2, d2 = "print:schedule", "printed journal depends on the loader schedule\n" + first.Stdout + "\nvs\n" + out.Stdout
+								k2, d2 = "print:schedule", "printed journal depends on the loader schedule\n"+first.Stdout+"\nvs\n"+out.Stdout
 							} else if args[0] == "balance" && out.Stdout != first.Stdout {
-								k2, d2 = "balance:schedule", "balance depends on the loader schedule\n" + first.Stdout + "\nvs\n" + out.Stdout
+								k2, d2 = "balance:schedule", "balance depends on the loader schedule\n"+first.Stdout+"\nvs\n"+out.Stdout
 							}
 							if k2 != "" && vkey == "" {
 								vkey, vdetail, picks = k2, d2, c.Picks()
